@@ -1,7 +1,7 @@
 """Library dispatch of cxx2c: std:: free functions, methods and operators on mapped types,
 auto-generated stubs for everything outside the unit's transparent set."""
 import re
-from cxx2c import Unsupported, Ty, cident
+from cxx2c import Unsupported, Ty, cident, OPNAMES
 
 class LibMixin:
     # ------------------------------------------------------------ std free functions
@@ -16,7 +16,7 @@ class LibMixin:
             if self.has_side_effects(args[0]) or self.has_side_effects(args[1]): raise Unsupported('side effect in std::min/max argument')
             return 'CC_%s(%s, %s)' % (name.upper(), self.expr(args[0]), self.expr(args[1]))
         if name in ('size', 'ssize', 'empty', 'begin', 'end', 'cbegin', 'cend', 'data') and len(args) == 1:
-            at = self.tyq(args[0]['type'])
+            at = self.etype(args[0])
             if name == 'empty' and at.kind == 'rec':
                 # std::empty(x) -> x.empty()
                 for c in at.rec.get('inner', []):
@@ -35,6 +35,19 @@ class LibMixin:
             if at.kind == 'iter':
                 step = '1' if len(args) == 1 or args[1].get('kind') == 'CXXDefaultArgExpr' else self.expr(args[1])
                 return '(%s %s (size_t)%s)' % (self.expr(args[0]), '+' if name == 'next' else '-', step)
+        if name == 'find' and len(args) == 3:
+            cont = self.find_container_in(args[0])
+            ct = self.container_type(args[0])
+            if cont is None or ct is None: raise Unsupported('std::find over unknown container at ' + self.where(n))
+            self.require_full_range(args[0], args[1], n)
+            self.rules['std::find'] += 1
+            return self.cont_call(ct, 'find', cont, [self.expr(args[2], rvalue=True)])
+        if name == 'reverse' and len(args) == 2:
+            cont = self.find_container_in(args[0]); ct = self.container_type(args[0])
+            if cont is None or ct is None: raise Unsupported('std::reverse over unknown container')
+            self.require_full_range(args[0], args[1], n)
+            self.rules['std::reverse'] += 1
+            return self.cont_call(ct, 'reverse', cont)
         if name == 'abs' and len(args) == 1:
             a = self.expr(args[0]); return '((%s) < 0 ? -(%s) : (%s))' % (a, a, a)
         return None
@@ -59,27 +72,72 @@ class LibMixin:
         if k == 'vec':
             o = self.obj_text(obj, is_arrow)
             if m in ('size', 'empty'):
-                return '%s_%s(%s)' % (t.c, m, self.addr(o))
+                return self.cont_call(t, m, o)
             if m in ('push_back',):
-                return '%s_push_back(%s, %s)' % (t.c, self.addr(o), self.expr(args[0]))
+                return self.cont_call(t, 'push_back', o, [self.expr(args[0])])
             if m == 'emplace_back':
                 if len(args) == 1 and self.same_c(args[0], t.elem):
                     v = self.expr(args[0])
                 else:
                     v = self.construct(t.elem, args, n)
                 self.rules['emplace_back->push_back(construct)'] += 1
-                return '%s_push_back(%s, %s)' % (t.c, self.addr(o), v)
+                return self.cont_call(t, 'push_back', o, [v])
             if m in ('pop_back', 'clear'):
-                return '%s_%s(%s)' % (t.c, m, self.addr(o))
+                return self.cont_call(t, m, o)
             if m == 'reserve':
                 self.dropped['vector::reserve'] += 1
                 return '((void)0)'
             if m in ('at', 'back', 'front'):
                 if rvalue:
-                    return '%s_%s(%s%s)' % (t.c, m, self.addr(o), ''.join(', ' + self.expr(x) for x in args))
+                    return self.cont_call(t, m, o, [self.expr(x) for x in args])
                 return self.vec_lvalue(t, o, m, args, n)
             if m == 'begin' or m == 'cbegin': return '((size_t)0)'
             if m == 'end' or m == 'cend': return '%s.size' % o
+            if m == 'erase' and len(args) == 1:
+                self.rules['vector::erase(iterator)'] += 1
+                return self.cont_call(t, 'erase_at', o, [self.expr(args[0])])
+            return None
+        if k == 'uset':
+            o = self.obj_text(obj, is_arrow)
+            if m in ('size', 'empty', 'clear'): return self.cont_call(t, m, o)
+            if m in ('contains',): return self.cont_call(t, 'contains', o, [self.expr(args[0], rvalue=True)])
+            if m == 'count': return '((size_t)%s)' % self.cont_call(t, 'contains', o, [self.expr(args[0], rvalue=True)])
+            if m in ('emplace', 'insert') and len(args) == 1:
+                self.rules['unordered_set::emplace/insert (result unused)'] += 1
+                return self.cont_call(t, 'insert', o, [self.expr(args[0], rvalue=True)])
+            if m == 'erase' and len(args) == 1 and self.tyq(args[0]['type']).kind == 'scalar':
+                return self.cont_call(t, 'erase', o, [self.expr(args[0], rvalue=True)])
+            if m == 'reserve':
+                self.dropped['unordered_set::reserve'] += 1; return '((void)0)'
+            if m in ('begin', 'cbegin'): return '((size_t)0)'
+            if m in ('end', 'cend'): return '%s.size' % o
+            return None
+        if k == 'umap':
+            o = self.obj_text(obj, is_arrow)
+            if m in ('size', 'empty', 'clear'): return self.cont_call(t, m, o)
+            if m == 'contains': return self.cont_call(t, 'contains', o, [self.expr(args[0], rvalue=True)])
+            if m == 'count': return '((size_t)%s)' % self.cont_call(t, 'contains', o, [self.expr(args[0], rvalue=True)])
+            if m == 'at': return self.cont_call(t, 'at', o, [self.expr(args[0], rvalue=True)])
+            if m == 'emplace' and len(args) == 2:
+                return self.cont_call(t, 'emplace', o, [self.expr(args[0], rvalue=True), self.expr(args[1], rvalue=True)])
+            if m == 'erase' and len(args) == 1 and self.tyq(args[0]['type']).kind == 'scalar':
+                return self.cont_call(t, 'erase', o, [self.expr(args[0], rvalue=True)])
+            if m == 'reserve':
+                self.dropped['unordered_map::reserve'] += 1; return '((void)0)'
+            return None
+        if k == 'pset':
+            o = self.obj_text(obj, is_arrow)
+            if m in ('contains', 'count') and len(args) == 1:
+                pe = self.skip(args[0])
+                parts = pe.get('inner', [])
+                if pe.get('kind') in ('CXXConstructExpr', 'InitListExpr', 'CXXTemporaryObjectExpr') and len(parts) == 2:
+                    return self.cont_call(t, 'contains', o, [self.expr(parts[0], rvalue=True), self.expr(parts[1], rvalue=True)])
+            return None
+        if k == 'opaque':
+            return self.opaque_call(t, cident(m.replace('operator', 'op_')), (obj, is_arrow), args, n)
+        if k == 'bitref':
+            if m.startswith('operator bool'):
+                return self.obj_text(obj, is_arrow)
             return None
         if k == 'opt':
             o = self.obj_text(obj, is_arrow)
@@ -91,9 +149,54 @@ class LibMixin:
             return None
         return None
 
+    def container_type(self, itexpr):
+        c = self.skip(itexpr)
+        if c.get('kind') in ('CallExpr', 'CXXMemberCallExpr'):
+            try: d, r = self.callee_decl(c)
+            except Unsupported: return None
+            if r.get('name') in ('begin', 'end', 'cbegin', 'cend'):
+                if c['kind'] == 'CallExpr': return self.etype(c['inner'][1])
+                me = self.skip(c['inner'][0]); return self.etype(me['inner'][0])
+        if c.get('kind') == 'DeclRefExpr':
+            return self.iter_ty.get(c['referencedDecl']['id'])
+        return None
+
+    def require_full_range(self, first, last, n):
+        def nm(x):
+            c = self.skip(x)
+            if c.get('kind') in ('CallExpr', 'CXXMemberCallExpr'):
+                try: return self.callee_decl(c)[1].get('name')
+                except Unsupported: return None
+            return None
+        if nm(first) not in ('begin', 'cbegin') or nm(last) not in ('end', 'cend'):
+            raise Unsupported('algorithm over a sub-range at ' + self.where(n))
+
     def same_c(self, arg, t):
         try: return self.tyq(arg['type']).c == t.c
         except Unsupported: return False
+
+    MUTATORS = {'push_back', 'pop_back', 'clear', 'erase_at', 'insert_at', 'insert', 'erase', 'emplace', 'reverse', 'resize'}
+    def cont_call(self, t, op, o, args=()):
+        """call of a container stub on lvalue text `o`.  CBMC 6.11 mis-reads through pointers to an
+        element nested in a struct array reached via a pointer parameter (DESIGN §2 item 8), so for
+        such lvalues the operation runs on a local copy that is written back (same semantics)."""
+        a = ''.join(', ' + x for x in args)
+        if '.data[' not in o:
+            return '%s_%s(%s%s)' % (t.c, op, self.addr(o), a)
+        self.rules['nested-element-by-copy'] += 1
+        tn = self.tmp('c')
+        if op in self.MUTATORS:
+            return '({ %s %s = %s; %s_%s(&%s%s); %s = %s; (void)0; })' % (t.c, tn, o, t.c, op, tn, a, o, tn)
+        return '({ %s %s = %s; %s_%s(&%s%s); })' % (t.c, tn, o, t.c, op, tn, a)
+
+    def chk(self, cond, msg, lv):
+        """library precondition as an obligation in front of an lvalue: a hoisted statement where
+        possible, an inline comma expression inside conditionally evaluated operands"""
+        if self.inline_checks > 0:
+            self.rules['inline-obligation'] += 1
+            return '(*(__CPROVER_assert(%s, "%s"), &%s))' % (cond, msg, lv)
+        self.pre.append('__CPROVER_assert(%s, "%s");' % (cond, msg))
+        return lv
 
     def vec_lvalue(self, t, o, m, args, n):
         """element lvalue with the library precondition as a preceding obligation;
@@ -103,37 +206,36 @@ class LibMixin:
             if self.has_side_effects(ix): raise Unsupported('side effect in vector index at ' + self.where(n))
             i = self.expr(ix)
             msg = 'vector::at throws std::out_of_range' if m == 'at' else 'vector::operator[] index < size() (else UB)'
-            self.pre.append('__CPROVER_assert((size_t)%s < %s.size, "%s");' % (i, o, msg))
-            return '%s.data[%s]' % (o, i)
+            return self.chk('(size_t)%s < %s.size' % (i, o), msg, '%s.data[%s]' % (o, i))
         if m == 'back':
-            self.pre.append('__CPROVER_assert(%s.size > 0, "vector::back on empty (UB)");' % o)
-            return '%s.data[%s.size-1]' % (o, o)
+            return self.chk('%s.size > 0' % o, 'vector::back on empty (UB)', '%s.data[%s.size-1]' % (o, o))
         if m == 'front':
-            self.pre.append('__CPROVER_assert(%s.size > 0, "vector::front on empty (UB)");' % o)
-            return '%s.data[0]' % o
+            return self.chk('%s.size > 0' % o, 'vector::front on empty (UB)', '%s.data[0]' % o)
         raise Unsupported('vec_lvalue ' + m)
 
     # ------------------------------------------------------------ operators on mapped types
     def lib_operator(self, t, op, args, n, rvalue):
         h = self.u_hook('lib_operator', t, op, args, n, rvalue)
         if h is not None: return h
+        if t.kind == 'opaque':
+            return self.opaque_call(t, OPNAMES.get(op, 'op_' + cident(op)), (args[0], False), args[1:], n)
         if t.kind == 'sv' and op == '[]':
             return 'sv_index(%s, %s)' % (self.expr(args[0]), self.expr(args[1]))
         if t.kind == 'sv' and op in ('==', '!='):
             return '(%ssv_eq(%s, %s))' % ('!' if op == '!=' else '', self.expr(args[0]), self.expr(args[1]))
+        if t.kind == 'bitref' and op == '=':
+            return '(%s = %s)' % (self.expr(args[0]), self.expr(args[1], rvalue=True))
         if t.kind == 'vec' and op == '[]':
             o = self.expr(args[0])
-            if rvalue: return '%s_get(%s, %s)' % (t.c, self.addr(o), self.expr(args[1]))
+            if rvalue and t.elem.c != 'cc_bool': return self.cont_call(t, 'get', o, [self.expr(args[1])])
             return self.vec_lvalue(t, o, '[]', args[1:], n)
         if t.kind == 'opt':
             o = self.expr(args[0])
             if op == '*':
                 if rvalue: return '%s_deref(%s)' % (t.c, o)
-                self.pre.append('__CPROVER_assert(%s.has, "optional::operator* on empty (UB)");' % o)
-                return '%s.val' % o
+                return self.chk('%s.has' % o, 'optional::operator* on empty (UB)', '%s.val' % o)
             if op == '->':
-                self.pre.append('__CPROVER_assert(%s.has, "optional::operator-> on empty (UB)");' % o)
-                return '(&%s.val)' % o
+                return '(&%s)' % self.chk('%s.has' % o, 'optional::operator-> on empty (UB)', '%s.val' % o)
             if op == '=':
                 return '(%s = %s)' % (o, self.expr(args[1]))
         if t.kind == 'iter':
@@ -143,12 +245,15 @@ class LibMixin:
                 return '(%s%s)' % (o, op) if post else '(%s%s)' % (op, o)
             if op in ('==', '!=', '<', '-', '+'):
                 return '(%s %s %s)' % (o, op, self.expr(args[1]))
+            if op in ('*', '->') and t.elem is None:
+                cont = self.iter_container(args[0]); ct = self.container_type(args[0])
+                if cont is None or ct is None: raise Unsupported('iterator dereference with unknown container at ' + self.where(n))
+                return self.chk('%s < %s.size' % (o, cont), 'dereference of end()/invalid iterator (UB)', '%s.data[%s]' % (cont, o))
             if op in ('*', '->'):
                 cont = self.iter_container(args[0])
                 if cont is None: raise Unsupported('iterator dereference with unknown container at ' + self.where(n))
                 ct = t.elem
-                self.pre.append('__CPROVER_assert(%s < %s.size, "dereference of end()/invalid iterator (UB)");' % (o, cont))
-                e = '%s.data[%s]' % (cont, o)
+                e = self.chk('%s < %s.size' % (o, cont), 'dereference of end()/invalid iterator (UB)', '%s.data[%s]' % (cont, o))
                 return e if op == '*' else '(&%s)' % e
         if t.kind in ('vec',) and op == '=':
             return '(%s = %s)' % (self.expr(args[0]), self.expr(args[1]))
@@ -168,6 +273,42 @@ class LibMixin:
                 if c['kind'] == 'CallExpr': return self.expr(c['inner'][1])
                 me = self.skip(c['inner'][0]); return self.obj_text(me['inner'][0], me.get('isArrow'))
         return None
+
+    def opaque_call(self, t, name, objinfo, args, n):
+        """operation of an opaque (not modelled) library type: body-less stub named after the type,
+        the operation and the argument types; specs may attach a contract"""
+        atxt = []; ptxt = []; suffix = []
+        if objinfo is not None:
+            obj, is_arrow = objinfo
+            core = self.skip(obj)
+            if is_arrow: atxt.append(self.expr(obj))
+            elif core.get('valueCategory') == 'lvalue' or core.get('kind') in ('DeclRefExpr', 'MemberExpr'):
+                atxt.append(self.addr(self.expr(obj)))
+            else:
+                tn = self.tmp('obj'); self.pre.append('%s %s = %s;' % (t.c, tn, self.expr(obj))); atxt.append('&' + tn)
+            ptxt.append('%s* this_' % t.c)
+        for i, a in enumerate(args):
+            if a.get('kind') == 'CXXDefaultArgExpr': continue
+            at = self.tyq(a['type'])
+            suffix.append(cident(at.c))
+            if self.big(at) or at.kind == 'opaque':
+                core = self.skip(a)
+                if core.get('valueCategory') == 'lvalue' or core.get('kind') in ('DeclRefExpr', 'MemberExpr'):
+                    atxt.append(self.addr(self.expr(core)))
+                else:
+                    tn = self.tmp('arg'); self.pre.append('%s %s = %s;' % (at.c, tn, self.expr(a))); atxt.append('&' + tn)
+                ptxt.append('const %s* a%d' % (at.c, i))
+            else:
+                atxt.append(self.expr(a, rvalue=True)); ptxt.append('%s a%d' % (at.c, i))
+        rt = self.tyq(n['type']) if n.get('type') else Ty('void', 'void')
+        cn = '%s_%s%s' % (t.c, name, ('__' + '_'.join(suffix)) if suffix else '')
+        byref = rt.kind != 'void' and n.get('valueCategory') == 'lvalue'
+        rc = (rt.c + '*') if byref else rt.c
+        self.autostubs.setdefault(cn, '%s %s(%s);' % (rc, cn, ', '.join(ptxt) or 'void'))
+        self.fninfo.setdefault(cn, {'qname': '%s::%s' % (t.c, name), 'stub': True})
+        self.rules['opaque-library-call'] += 1
+        call = '%s(%s)' % (cn, ', '.join(atxt))
+        return '(*%s)' % call if byref else call
 
     # ------------------------------------------------------------ unit boundary
     def is_external(self, d):
@@ -208,7 +349,7 @@ class LibMixin:
         cn = self.fn_cname(d)
         ps = self.params_of(d)
         ptxt = []; atxt = []
-        if objinfo is not None and d.get('storageClass') != 'static':
+        if objinfo is not None and not self.is_static_method(d):
             obj, is_arrow = objinfo
             ot = self.tyq(obj['type'])
             if ot.kind == 'ptr' and is_arrow: ot = ot.elem
